@@ -306,3 +306,19 @@ func (c Cmd) String() string {
 	}
 	return s
 }
+
+// QOp is one operation on an internal queue (C20); QObs what it returned.
+type QOp struct {
+	Op  string `json:"op"`
+	Arg int    `json:"arg,omitempty"`
+}
+
+type QObs struct {
+	Ret   int    // element id returned (0 = nil / none), or Len, or 1/0 for accepted/refused
+	Iter  []int  // for iter: element ids in order (0 = hole)
+	State string // structural state after the op (cursors, node sizes), for canonical keys
+	Err   string // panic message if the operation crashed
+}
+
+// QueueExec is set by the harness: runs ops on a fresh queue of the given kind and parameters.
+var QueueExec func(kind string, params []int, ops []QOp) []QObs
